@@ -263,6 +263,11 @@ def gen_scenario(rng, prof=None, force_selflock=None):
     spec['rules'] = []
     spec['stop'] = None
     spec['prior_design'] = rng.randrange(1 << 30) if rng.random() < 0.3 else None     # relations declared differently first (sim/build.py prior_design)
+    spec['deepcopy'] = rng.random() < p.get('p_deepcopy', 0.1)          # the assembled powertrain is deep-copied and the copy is used
+    if rng.random() < p.get('p_subclass', 0.1):
+        for e_ in [spec['motor']] + spec['chain']:
+            if rng.random() < 0.6:
+                e_['subclass'] = True                                  # a trivial user subclass of the element class
     spec['failed_attempts'] = rng.randrange(1 << 30) if rng.random() < 0.25 else None     # rejected declarations after the design (sim/build.py)
     spec['touch_constants'] = rng.randrange(1 << 30) if rng.random() < p.get('p_touch_constants', 0.15) else None   # constants converted in place after assembly (sim/build.py)
     spec['order'] = rng.randrange(24)          # which of the legal orders of public calls the driver uses (see sim/build.py)
